@@ -174,7 +174,8 @@ impl Serialize for ImageHeader {
                 ImageHeaderV1::Jpeg { .. } => 16,
                 ImageHeaderV1::Unknown { data, .. } => 4 + data.len(),
             },
-            Self::Unknown { data, .. } => 1 + data.len(),
+            // two octets length, one octet version
+            Self::Unknown { data, .. } => 2 + 1 + data.len(),
         }
     }
 }
